@@ -40,7 +40,7 @@ def obligations(tier):
            bounds="5 call sites x 3 directory layouts (versioned, flat, mixed incl. legacy flat copies and ids that exist only as flat files); allow_custom symbolic; version None or any str <= 3; every stored file reaches the parser exactly once"),
         CH("forward_observable_property", H, "fwd_observable_property", t, functions=F[13:14], stubs=[REC], bounds="allow_custom symbolic, both spec versions"),
         CH("entry_points_same_class", H, "entry_points", t, mode="E1s", functions=F, stubs=[FSS],
-           bounds="8 documents (2.0/2.1 SDO, SCO with/without id, 2.0/2.1 bundles, bundles whose members carry no version / a 2.1-only id) x (no version, 2.0, 2.1) x "
+           bounds="12 documents (2.0/2.1 SDO, SCO with/without id, 2.0/2.1 bundles, bundles whose members carry no version / a 2.1-only id, content naming a custom extension registered for the other / the same version only: nothing inside a result is built by the other version's classes) x (no version, 2.0, 2.1) x memory stores, sinks and sources built with (no version, 2.0, 2.1) x "
                   "(parse, store.add, store ctor, FS sink+source with a dictionary / JSON text / a list of texts, MemorySource.load_from_file, MemoryStore.load_from_file)"),
         CH("strictness_independent_of_history", H, "strictness_after_history", t, mode="E1s", functions=F[15:] + F[:1],
            bounds="a UUIDv1 identifier (legal in 2.1 only) as id or inside a reference: refused as 2.0 through 5 entry points, accepted as 2.1, and still refused as 2.0 afterwards"),
